@@ -27,7 +27,7 @@ def pair(rng):
 def gen(rng, tier):
     cases = []
     pk = iu.packaged()
-    n = 180 if tier == 'quick' else 2500
+    n = 180 if tier == 'quick' else 6000
     for i in range(n):
         a, b = pair(rng)
         fa, fb = rng.random() < 0.5, rng.random() < 0.5
